@@ -210,10 +210,10 @@ Proof.
   intros o. induction ms as [|m r IH]; intros a b a' b' H Ha Hb.
   - cbn in Ha, Hb. inversion Ha; inversion Hb; subst. exact H.
   - cbn [write_all] in Ha, Hb.
-    destruct (mkdir_p (em_dirs m) a) as [a1|] eqn:Ha1; [|discriminate Ha].
-    destruct (mkdir_p (em_dirs m) b) as [b1|] eqn:Hb1; [|discriminate Hb].
-    destruct (write_at (em_dirs m) (out_file o m) (entity_content m) a1) as [a2|] eqn:Ha2; [|discriminate Ha].
-    destruct (write_at (em_dirs m) (out_file o m) (entity_content m) b1) as [b2|] eqn:Hb2; [|discriminate Hb].
+    destruct (mkdir_p (out_dirs m) a) as [a1|] eqn:Ha1; [|discriminate Ha].
+    destruct (mkdir_p (out_dirs m) b) as [b1|] eqn:Hb1; [|discriminate Hb].
+    destruct (write_at (out_dirs m) (out_file o m) (entity_content m) a1) as [a2|] eqn:Ha2; [|discriminate Ha].
+    destruct (write_at (out_dirs m) (out_file o m) (entity_content m) b1) as [b2|] eqn:Hb2; [|discriminate Hb].
     apply (IH a2 b2 a' b'); [|exact Ha|exact Hb].
     eapply agree_write; [|exact Ha2|exact Hb2].
     eapply agree_mkdir; [exact H|exact Ha1|exact Hb1].
@@ -274,6 +274,7 @@ Theorem export_canonical : forall o ms t1 t2 r1 r2,
 Proof.
   intros o ms t1 t2 r1 r2 H1 H2. unfold export in H1, H2.
   destruct (negb (forallb normalize_ok ms)); [discriminate H1|].
+  destruct (negb (no_collision o ms)); [discriminate H1|].
   destruct (negb (forallb em_render_ok ms)); [discriminate H1|].
   destruct (write_all o ms (clean_dir (orm_ext o) t1)) as [w1|] eqn:W1; [|discriminate H1].
   destruct (write_all o ms (clean_dir (orm_ext o) t2)) as [w2|] eqn:W2; [|discriminate H2].
